@@ -86,6 +86,9 @@ def templates():
         ("derived_cols_of_star:insert", lambda: (ins(ir.Select((I(C("d", "c1")),), (ir.FromGroup(ir.Derived(ir.Select((I(ir.Star(None)),), one), "d", True)),))), [0], {"star", "named_through_star"})),
         ("cte_star_body:insert", lambda: (ins(ir.With((("q1", ir.Select((I(ir.Star(None)),), one)),), ir.Select((I(C("q1", "c1")), I(C("q1", "k"))), (ir.FromGroup(ir.CteRef("q1")),)))), [0], {"star", "named_through_star"})),
         ("explicit_list_unknown_or_known_target", lambda: (ins(ir.Select((I(C(q(0), "c1")), I(C(q(0), "k"))), one), ("x1", "x2")), [0], {"explicit"})),
+        # an explicit list that is a PERMUTATION of the known target's columns: the list decides, not the metadata order
+        ("explicit_list_permuting_known_target", lambda: (ins(ir.Select((I(C(q(0), "c1")), I(C(q(0), "k"))), one), ("t2", "t1")), [0], {"explicit_perm"})),
+        ("explicit_list_permuting_known_target_join", lambda: (ins(ir.Select((I(C(q(0), "c1")), I(C(q(1), "d1"), "o2")), join2), ("t2", "t1")), [0, 1], {"explicit_perm"})),
         ("positional_target", lambda: (ins(ir.Select((I(C(q(0), "c1")), I(C(q(0), "k"), "kk")), one)), [0], {"positional"})),
         ("positional_target_unq", lambda: (ins(ir.Select((I(C(None, "c1")), I(C(None, "d1"))), join2)), [0, 1], {"positional", "unq"})),
         # an UNKNOWN table with the same bare name as a known one, in another schema (both aliased); two unqualified columns
